@@ -479,11 +479,31 @@ def case_flag(ctx, rng):
         warnings.simplefilter('ignore')
         c = pe.correlate(r, r)
     ctx.equal(bool(c.reweighted), True, 'flag-not-inherited:correlate')
+
+    def second_generation(src, label):
+        """everything derived from an object that carries the flag carries it too - whichever producer handed the object out"""
+        for k, f in {'mul_number': lambda: 2.5 * src, 'add_plain': lambda: src + 1.0, 'func': lambda: np.exp(0.1 * src),
+                     'derived_observable': lambda: pe.derived_observable(lambda x, **kw: x[0] ** 2, [src]), 'neg': lambda: -src}.items():
+            ctx.count('flag_second_generation')
+            ctx.equal(bool(f().reweighted), True, 'flag-not-inherited:%s:then-%s' % (label, k))
+    second_generation(c, 'correlate')
+    second_generation(r + plain, 'add')
     m_in = [gen.table_to_obs(pe, {n: otab[n]}) for n in sorted(otab)]
     if len(m_in) > 1:
         rr = pe.reweight(w, m_in)
         m = pe.merge_obs(rr)
         ctx.equal(bool(m.reweighted), True, 'flag-not-inherited:merge_obs')
+        second_generation(m, 'merge_obs')
+        # one reweighted and one plain part merged: the flag is set, and inherited
+        mixed = pe.merge_obs([rr[0]] + [gen.table_to_obs(pe, {n: otab[n]}) for n in sorted(otab)[1:]])
+        ctx.equal(bool(mixed.reweighted), True, 'flag-not-inherited:merge_obs-mixed')
+        second_generation(mixed, 'merge_obs-mixed')
+        if len(m_in) > 2:
+            again = pe.merge_obs([pe.merge_obs(rr[:2])] + rr[2:])
+            ctx.equal(bool(again.reweighted), True, 'flag-not-inherited:merge_obs-of-merged')
+            second_generation(again, 'merge_obs-of-merged')
+    cr = pe.Corr([o, plain]).reweight(w)
+    second_generation(cr.content[0][0], 'Corr.reweight')
     ctx.nontrivial.add(digest('flag', sorted((n, sorted(d.items())) for n, d in otab.items())))
 
 
